@@ -222,6 +222,10 @@ func childMain() {
 }
 
 func runJob(j Job, emit func(Line)) {
+	if j.Kind == "mgr" || (j.Kind == "script" && len(j.Ops) > 0 && j.Ops[0].K == "mgr") {
+		runManager(j.Ops, emit)
+		return
+	}
 	c := newCtl()
 	defer func() {
 		wedged := c.finish()
@@ -404,6 +408,8 @@ func evTerm(e Ev) string {
 		return "XAgain " + vh.Nat(e.I)
 	case "break":
 		return "XBreak " + vh.Nat(e.I)
+	case "mgr":
+		return "XManager " + vh.Nat(e.I)
 	}
 	panic("evTerm " + e.K)
 }
@@ -673,6 +679,27 @@ func main() {
 	}
 	meta.Extra["exhaustive_depth"] = depth
 	meta.Extra["exhaustive_scripts"] = n
+
+	// manager family: Add / Reconnect* / Remove cycles of a real manager.Manager
+	// over the real connection.Manager, targets with 1..3 distinct next hops
+	mrng := vh.NewRand(vh.NewRand(o.Seed ^ 0xa11).U64())
+	nmgr := 6
+	if o.Thorough() {
+		nmgr = 40
+	}
+	for i := 0; i < nmgr; i++ {
+		f := mrng.Fork()
+		var ops []Ev
+		for k := 1 + f.Intn(3); k > 0; k-- {
+			hops := 1 + f.Intn(3)
+			if i < 3 {
+				hops = i + 1 // each number of next hops at least once
+			}
+			ops = append(ops, Ev{K: "mgr", I: hops, A: f.Intn(2) * f.Intn(hops+1), EK: f.Intn(3), ND: f.Chance(1, 3)})
+		}
+		po, pb, _ := r.run(Job{Kind: "mgr", Ops: ops})
+		e.add("manager", po, pb)
+	}
 
 	// contended releases: one address with 1..3 holders, another whose slow
 	// handle is being closed by its last holder (m.mu held); a holder of the
